@@ -20,7 +20,7 @@ ID = "C15"
 ANCHORS = ["solvor/articulation.py", "solvor/kcore.py", "solvor/pagerank.py", "solvor/community.py"]
 EPS = Fraction(1, 10**9)
 DAMPINGS = [(17, 20), (1, 2), (3, 4), (9, 10), (1, 10), (1, 4), (19, 20), (99, 100), (1, 100), (2, 3)]
-TOLS = [5e-2, 1e-2, 1e-3, 1e-4, 1e-6, 1e-8]
+TOLS = [5e-2, 1e-2, 1e-3, 1e-3, 1e-4, 1e-4, 1e-6, 1e-6, 1e-8]
 MAX_ITERS = [0, 1, 2, 3, 5, 10, 10, 25, 25, 100, 100]
 COQ_PR_MAX_IT = 24  # longer runs are judged by the Python oracles only (Q numerators grow with every iteration)
 
@@ -39,7 +39,7 @@ def gen_graph(rng, big=False):
 
     if n >= 2:
         if shape == "sparse":
-            for _ in range(rng.randint(0, n + 1)):
+            for _ in range(rng.randint(1, n + 2)):
                 add(*rng.sample(labels, 2))
         elif shape == "dense":
             for i in range(n):
@@ -553,7 +553,7 @@ def run(ctx: Ctx):
         "the independent check is lv_spec_check / the Python reference on the implementation's partition",
         "kcore: buckets[k].pop() order is not observable; the model pops the first element; compared observable (core numbers) is "
         "pick-independent by theorem C15_kcore",
-        "articulation/bridges: model follows _undirected_adjacency insertion order; results compared as sets (the property leaves the order free)",
+        "articulation/bridges: model follows _undirected_adjacency insertion order; results compared as sets (the property leaves the order free); the model is proved exact (C15_artic_points_exact / C15_artic_bridges_exact) and the implementation answer is additionally certified per case by ap_spec_check / br_spec_check",
         "node lists without repeated nodes, integer labels (bridges orders endpoints with <)",
     ]
     big = ctx.tier == "thorough"
